@@ -264,5 +264,8 @@ def jobs(tier):
     out += mk('C14', 'roots3', S.roots3())
     out += mk('C14', 'child/await/k1', S.child('await', k=1))
     out += mk('C14', 'flood_idle', S.flood_idle())
+    out += mk('C14', 'deep4/await', S.deep4('await'))
+    out += mk('C14', 'deep4/ff', S.deep4('ff'))
+    out += mk('C14', 'deep4/ff/wild_raise', S.deep4('ff', wild_raise=True))
     out += matrix_jobs('C14', 'm3', tier)
     return flat(out)
